@@ -477,19 +477,17 @@ Proof.
     all: try fin. right. split; reflexivity.
 Qed.
 
-Definition all_obj (segs : list (reopen * list sample)) : Prop := Forall (fun sg => fst sg = ReObj) segs.
-
 Lemma xor_run_ok : forall segs num bs xs,
-  chunk_ok num bs xs -> all_obj segs -> Forall wf_sample (flat_map snd segs) ->
+  chunk_ok num bs xs -> Forall wf_sample (flat_map snd segs) ->
   num + Z.of_nat (length (flat_map snd segs)) <= 65535 ->
   exists n' bs', xor_run segs num bs = EOk n' [] bs' /\ chunk_ok n' bs' (xs ++ flat_map snd segs).
 Proof.
-  induction segs as [|[k ss] segs IH]; intros num bs xs Hok Hobj Hwf Hcap.
+  induction segs as [|[k ss] segs IH]; intros num bs xs Hok Hwf Hcap.
   - exists num, bs. cbn. rewrite app_nil_r. split; [reflexivity|exact Hok].
-  - inversion Hobj as [|? ? Hk Hobj']; subst. cbn [fst] in Hk. subst k.
-    cbn [flat_map snd] in Hwf, Hcap. apply Forall_app in Hwf. destruct Hwf as [Hwf1 Hwf2].
+  - cbn [flat_map snd] in Hwf, Hcap. apply Forall_app in Hwf. destruct Hwf as [Hwf1 Hwf2].
     rewrite app_length, Nat2Z.inj_add in Hcap.
-    cbn [xor_run].
+    unfold xor_run. cbn [xor_run_gen]. fold xor_run.
+    replace (match k with ReObj => bs | ReBytes => bs end) with bs by (destruct k; reflexivity).
     destruct (resume_ok num bs xs Hok) as [a [it [Hres [HI Hit]]]]. rewrite Hres.
     assert (Hnum0 : 0 <= num) by (destruct Hok as [Hn _]; lia).
     pose proof (xor_append_all_total ss num a Hnum0 ltac:(lia)) as Htot.
@@ -503,7 +501,7 @@ Proof.
         exfalso. apply Hne; [discriminate|exact Hc2].
       - exists it2. split; [exact (Inv_it_ok _ _ _ HI2)|].
         intros r. rewrite app_length, xor_iter_app, <- app_assoc, Hit, Hit2, map_app. reflexivity. }
-    destruct (IH n2 (bs ++ b) (xs ++ ss) Hok2 Hobj' Hwf2 ltac:(lia)) as [n' [bs' [Hrun Hok']]].
+    destruct (IH n2 (bs ++ b) (xs ++ ss) Hok2 Hwf2 ltac:(lia)) as [n' [bs' [Hrun Hok']]].
     exists n', bs'. cbn [flat_map snd]. rewrite app_assoc. split; assumption.
 Qed.
 
@@ -521,25 +519,24 @@ Qed.
 (* histories on a fresh chunk with the appender re-obtained from the same object any number of
    times: every sample comes back, in order, bit for bit *)
 Lemma xor_history_roundtrip segs :
-  all_obj segs -> Forall wf_sample (flat_map snd segs) ->
+  Forall wf_sample (flat_map snd segs) ->
   Z.of_nat (length (flat_map snd segs)) <= 65535 ->
   exists num bs, xor_encode segs = EOk num [] bs /\
                  xor_decode (chunk_bytes num [] bs) = DOk (map st0 (flat_map snd segs)) false.
 Proof.
-  intros Hobj Hwf Hcap. unfold xor_encode.
-  destruct (xor_run_ok segs 0 [] [] chunk_ok_empty Hobj Hwf ltac:(lia)) as [n' [bs' [Hrun Hok]]].
+  intros Hwf Hcap. unfold xor_encode.
+  destruct (xor_run_ok segs 0 [] [] chunk_ok_empty Hwf ltac:(lia)) as [n' [bs' [Hrun Hok]]].
   exists n', bs'. split; [exact Hrun|]. cbn [app] in Hok.
   apply xor_decode_ok; [exact Hok|]. destruct Hok as [Hn _]. lia.
 Qed.
 
-Lemma xor_roundtrip ss :
+Lemma xor_roundtrip k ss :
   Forall wf_sample ss -> Z.of_nat (length ss) <= 65535 ->
-  exists num bs, xor_encode [(ReObj, ss)] = EOk num [] bs /\
+  exists num bs, xor_encode [(k, ss)] = EOk num [] bs /\
                  xor_decode (chunk_bytes num [] bs) = DOk (map st0 ss) false.
 Proof.
   intros Hwf Hcap.
-  destruct (xor_history_roundtrip [(ReObj, ss)]) as [num [bs [H1 H2]]].
-  - constructor; [reflexivity|constructor].
+  destruct (xor_history_roundtrip [(k, ss)]) as [num [bs [H1 H2]]].
   - cbn [flat_map snd]. rewrite app_nil_r. exact Hwf.
   - cbn [flat_map snd]. rewrite app_nil_r. exact Hcap.
   - exists num, bs. cbn [flat_map snd] in H2. rewrite app_nil_r in H2. split; assumption.
@@ -560,13 +557,13 @@ Proof.
   repeat constructor; cbn; unfold int64, minInt64, maxInt64, is_u64; lia.
 Qed.
 
-(* XORChunk.Appender() leaves bstream.count at 0 on a chunk rebuilt from bytes whose last byte is
+(* Before the fix, XORChunk.Appender() left bstream.count at 0 on a chunk rebuilt from bytes whose last byte is
    only partly used: the next sample starts on a fresh byte and the reader takes the padding bits
    for a sample.  (1000, 1.5) (2000, 1.5), reload, (3007, 2.5) reads back (3000, 1.5). *)
-Lemma xor_reload_refuted :
+Lemma xor_reload_old_refuted :
   exists segs num bs,
     Forall wf_sample (flat_map snd segs) /\ Z.of_nat (length (flat_map snd segs)) <= 65535 /\
-    xor_encode segs = EOk num [] bs /\
+    xor_encode_old segs = EOk num [] bs /\
     xor_decode (chunk_bytes num [] bs) =
       DOk [mkS 0 1000 4609434218613702656; mkS 0 2000 4609434218613702656; mkS 0 3000 4609434218613702656] false /\
     xor_decode (chunk_bytes num [] bs) <> DOk (map st0 (flat_map snd segs)) false.
@@ -581,10 +578,10 @@ Qed.
 (* non-vacuity witnesses *)
 Definition example_segs : list (reopen * list sample) :=
   [(ReObj, [mkS 0 (-5) 4609434218613702656; mkS 0 9223372036854775807 9221120237041090562]);
-   (ReObj, [mkS 0 (-9223372036854775808) 0; mkS 0 17 18446744073709551615; mkS 0 18 18446744073709551615])].
+   (ReBytes, [mkS 0 (-9223372036854775808) 0; mkS 0 17 18446744073709551615; mkS 0 18 18446744073709551615])].
 
 Lemma example_segs_ok :
-  all_obj example_segs /\ Forall wf_sample (flat_map snd example_segs) /\
+  Forall wf_sample (flat_map snd example_segs) /\
   Z.of_nat (length (flat_map snd example_segs)) <= 65535 /\
   match xor_encode example_segs with
   | EOk num _ bs => num = 5 /\ (length bs = 573)%nat /\
@@ -592,7 +589,7 @@ Lemma example_segs_ok :
   | _ => False
   end.
 Proof.
-  split; [repeat constructor|]. split.
+  split.
   - repeat constructor; cbn; unfold int64, minInt64, maxInt64, is_u64; lia.
   - split; [cbn; lia|]. vm_compute. repeat split.
 Qed.
@@ -762,13 +759,13 @@ Proof.
 Qed.
 
 Lemma xor_seek_script segs acts :
-  all_obj segs -> Forall wf_sample (flat_map snd segs) ->
+  Forall wf_sample (flat_map snd segs) ->
   Z.of_nat (length (flat_map snd segs)) <= 65535 ->
   exists num bs, xor_encode segs = EOk num [] bs /\
     xor_run_script (chunk_bytes num [] bs) acts = Some (spec_script None (map st0 (flat_map snd segs)) acts).
 Proof.
-  intros Hobj Hwf Hcap. unfold xor_encode.
-  destruct (xor_run_ok segs 0 [] [] chunk_ok_empty Hobj Hwf ltac:(lia)) as [n' [bs' [Hrun Hok]]].
+  intros Hwf Hcap. unfold xor_encode.
+  destruct (xor_run_ok segs 0 [] [] chunk_ok_empty Hwf ltac:(lia)) as [n' [bs' [Hrun Hok]]].
   exists n', bs'. split; [exact Hrun|]. cbn [app] in Hok.
   destruct Hok as [Hn [_ [it [_ Hit]]]].
   unfold chunk_bytes, xor_run_script. cbn [app].
